@@ -472,3 +472,45 @@ Definition decode_text (E : ext) (wrapped : bool) (s : str) : res uav :=
       let n := resolve (if wrapped then TYPES_NS else []) [] t in
       decode E n
   end.
+
+(* ---------- the element structure of an encoded value (what an XML reader makes of xml_encode's text, for values whose
+   raw-spliced parts contain no markup characters) ---------- *)
+Definition tleaf (name text : str) : nxml := NElem TYPES_NS name [] (match text with [] => None | _ => Some text end) [].
+Definition tnode (name : str) (children : list nxml) : nxml := NElem TYPES_NS name [] None children.
+Definition tloctext (name : str) (text locale : option str) (default_locale : option str) : nxml :=
+  tnode name [tleaf (lit "Locale") (match locale with Some l => l | None => ostr default_locale end); tleaf (lit "Text") (ostr text)].
+Fixpoint vtree (v : uav) : option nxml :=
+  match v with
+  | VBool b => Some (tleaf (lit "Boolean") (match b with Some true => lit "true" | Some false => lit "false" | None => [] end))
+  | VInt k z => Some (tleaf (ikind_name k) (match z with Some z => decZ z | None => [] end))
+  | VEnum z _ _ => Some (tleaf (lit "Int32") (match z with Some z => decZ z | None => [] end))
+  | VFloat dbl f => Some (tleaf (if dbl then lit "Double" else lit "Float") (match f with Some r => if str_eqb r (lit "nan") then [] else r | None => [] end))
+  | VString s => Some (tleaf (lit "String") (ostr s))
+  | VGuid s => Some (tleaf (lit "Guid") (ostr s))
+  | VDateTime d => Some (tleaf (lit "DateTime") (iso_utc d))
+  | VByteString b => Some (tleaf (lit "ByteString") (match b with Some b => b64enc b | None => [] end))
+  | VNodeId n => Some (tleaf (lit "Identifier") (print_nodeid n))
+  | VLocText t l => Some (tloctext (lit "LocalizedText") t l None)
+  | VEUInfo uri unit t1 l1 t2 l2 =>
+      Some (tnode (lit "ExtensionObject")
+              [tnode (lit "TypeId") [tleaf (lit "Identifier") (lit "i=888")];
+               tnode (lit "Body") [tnode (lit "EUInformation")
+                  [tleaf (lit "NamespaceUri") uri; tleaf (lit "UnitId") (decZ unit);
+                   tloctext (lit "DisplayName") t1 l1 (Some (lit "en")); tloctext (lit "Description") t2 l2 (Some (lit "en"))]]])
+  | VRange lo hi =>
+      Some (tnode (lit "ExtensionObject")
+              [tnode (lit "TypeId") [tleaf (lit "Identifier") (lit "i=885")];
+               tnode (lit "Body") [tnode (lit "Range") [tleaf (lit "Low") lo; tleaf (lit "High") hi]]])
+  | VExtObj tid body =>
+      match vtree body with
+      | Some b => Some (tnode (lit "ExtensionObject") [tnode (lit "TypeId") [tleaf (lit "Identifier") (print_nodeid tid)]; tnode (lit "Body") [b]])
+      | None => None end
+  | VXmlTree t => Some t
+  | VXmlRaw _ | VNone => None
+  | VList tn items =>
+      (fix go (l : list uav) (acc : list nxml) : option nxml :=
+         match l with
+         | [] => Some (tnode (lit "ListOf" ++ tn) (rev acc))
+         | x :: r => match vtree x with Some t => go r (t :: acc) | None => None end
+         end) items []
+  end.
